@@ -267,7 +267,7 @@ def gen_cells(ctx):
   rng = ctx.rng
   cols = fixture()
   out = []
-  vals = [pv.gen_value(rng) for _ in range(ctx.n(45, 1500))] + EDGE_VALUES + edge_objects()
+  vals = [pv.gen_value(rng) for _ in range(ctx.n(25, 1500))] + EDGE_VALUES + edge_objects()
   for v in vals:
     edge = len(out) >= 0 and (v is None or not isinstance(v, (int, float, str)) or rng.random() < 0.3)
     ts = [rng.choice(COLTYPES)]
@@ -347,7 +347,7 @@ def pairs_lit(b, pairs):
   return '[%s]' % '; '.join('(%s, %s)' % (short_bytes(b, x), pv.zl(digest(m))) for x, m in pairs)
 
 
-IMPORTS = ['Grist.Lib.PyFloat', 'Grist.Model.Values', 'Grist.Model.Reload']
+IMPORTS = ['Grist.Lib.PyFloat', 'Grist.Model.Values', 'Grist.Model.Reload', 'Grist.Model.ReloadPrims', 'GristGen.Reload_gen']
 # the oracle tables encode_f / decode_f / col_set / py_eq can consult (read off Model/Values.v and Model/Reload.v)
 NEED = set(['str', 'repr', 'type_name', 'float_repr', 'utf8', 'dt_offset', 'ts_offset', 'zone_known', 'truthy', 'json', 'int_of_str', 'iter'])
 
@@ -424,24 +424,26 @@ def correspond_cells(ctx):
                 kind='reload:%s:%s' % (t.split(':')[0], 'same' if same else ('raise' if res2[0] != 'ok' else 'differs')))
   ctx._c07_stored = stored
   ctx.log('literals: %d set, %d reload cases' % (len(set_cases), len(rl_cases)))
-  bad = ctx.run_cases('set', IMPORTS,
-                      'fun c => match c with (v, tbl, T, r) => res_eqb value_eqb (col_set (oracles_of tbl) T v) r end',
+  def _report(bad):
+    for k in bad[:6]:
+      t, v = set_meta[k]
+      ctx.broken('correspondence:model col_set differs from column.set',
+                 'type %s value %s -> %r' % (t, pv.to_expr(v)[:160], real_set(t, v)))
+  defer(ctx, _report, 'set', IMPORTS,
+                      'fun c => match c with (v, tbl, T, r) => res_eqb value_eqb (gen_col_set (oracles_of tbl) T v) r end',
                       set_cases, shard=60 if ctx.tier == 'quick' else 120, timeout=TIMEOUT(ctx), case_type='(value * tables * ctype * result value)%type')
-  for k in bad[:6]:
-    t, v = set_meta[k]
-    ctx.broken('correspondence:model col_set differs from column.set',
-               'type %s value %s -> %r' % (t, pv.to_expr(v)[:160], real_set(t, v)))
-  bad = ctx.run_cases('reload', IMPORTS,
+  def _report(bad):
+    for k in bad[:6]:
+      t, v = rl_meta[k]
+      r2 = real_cell_reload(t, v)[0]
+      ctx.broken('correspondence:model reload differs from the real load path',
+                 'type %s cell %s -> %s (error field %r)' % (t, pv.to_expr(v)[:160], pv.to_expr(r2[1])[:160] if r2[0] == 'ok' else r2,
+                                                             err_field(r2[1]) if r2[0] == 'ok' else None))
+  defer(ctx, _report, 'reload', IMPORTS,
                       'fun c => match c with (v, tbl, T, mp, err, r) => res_eqb cell_eqb '
-                      '(reload (oracles_of tbl) (marshal_of mp) (unmarshal_of mp) T %d (v, err)) r end' % FUEL,
+                      '(code_reload (oracles_of tbl) (marshal_of mp) (unmarshal_of mp) T %d (v, err)) r end' % FUEL,
                       rl_cases, shard=60 if ctx.tier == 'quick' else 120, timeout=TIMEOUT(ctx),
                       case_type='(value * tables * ctype * list (value * list Z) * option errdesc * result cell)%type')
-  for k in bad[:6]:
-    t, v = rl_meta[k]
-    r2 = real_cell_reload(t, v)[0]
-    ctx.broken('correspondence:model reload differs from the real load path',
-               'type %s cell %s -> %s (error field %r)' % (t, pv.to_expr(v)[:160], pv.to_expr(r2[1])[:160] if r2[0] == 'ok' else r2,
-                                                           err_field(r2[1]) if r2[0] == 'ok' else None))
   ctx.extra['cases_in_coq'] = len(set_cases) + len(rl_cases)
 
 
@@ -501,7 +503,7 @@ def correspond_compare(ctx):
   for t, raw, rl in (stored if ctx.tier == 'thorough' else rng.sample(stored, min(len(stored), 160))):
     if rl is not None:
       pairs.append((raw, rl, 'saved-vs-reloaded'))
-  for _ in range(ctx.n(90, 2500)):
+  for _ in range(ctx.n(60, 2500)):
     a = rng.choice(pool)
     k = rng.random()
     if k < 0.35:
@@ -548,19 +550,21 @@ def correspond_compare(ctx):
         ee_meta.append((a, b))
         ctx.count('e' + lit, nontrivial=True, kind='equal_encoding:%s:%s' % (how, r))
   ctype = '(value * value * tables * bool)%type'
-  bad = ctx.run_cases('strict', IMPORTS, 'fun c => match c with (a, b, tbl, r) => Bool.eqb (strict_equal (oracles_of tbl) a b) r end',
+  def _report(bad):
+    for k in bad[:6]:
+      a, b = se_meta[k]
+      ctx.broken('correspondence:model strict_equal differs from objtypes.strict_equal',
+                 '%s vs %s -> %r' % (pv.to_expr(a)[:100], pv.to_expr(b)[:100], objtypes.strict_equal(a, b)))
+  defer(ctx, _report, 'strict', IMPORTS, 'fun c => match c with (a, b, tbl, r) => res_eqb Bool.eqb (gen_strict_equal (oracles_of tbl) a b) (Ok r) end',
                       se_cases, shard=80 if ctx.tier == 'quick' else 150, timeout=TIMEOUT(ctx), case_type=ctype)
-  for k in bad[:6]:
-    a, b = se_meta[k]
-    ctx.broken('correspondence:model strict_equal differs from objtypes.strict_equal',
-               '%s vs %s -> %r' % (pv.to_expr(a)[:100], pv.to_expr(b)[:100], objtypes.strict_equal(a, b)))
-  bad = ctx.run_cases('equalenc', IMPORTS,
-                      'fun c => match c with (a, b, tbl, r) => Bool.eqb (equal_encoding (oracles_of tbl) %d a b) r end' % FUEL,
+  def _report(bad):
+    for k in bad[:6]:
+      a, b = ee_meta[k]
+      ctx.broken('correspondence:model equal_encoding differs from objtypes.equal_encoding',
+                 '%s vs %s -> %r' % (pv.to_expr(a)[:100], pv.to_expr(b)[:100], objtypes.equal_encoding(a, b)))
+  defer(ctx, _report, 'equalenc', IMPORTS,
+                      'fun c => match c with (a, b, tbl, r) => res_eqb Bool.eqb (gen_equal_encoding (oracles_of tbl) (encode_f (oracles_of tbl) %d) a b) (Ok r) end' % FUEL,
                       ee_cases, shard=80 if ctx.tier == 'quick' else 150, timeout=TIMEOUT(ctx), case_type=ctype)
-  for k in bad[:6]:
-    a, b = ee_meta[k]
-    ctx.broken('correspondence:model equal_encoding differs from objtypes.equal_encoding',
-               '%s vs %s -> %r' % (pv.to_expr(a)[:100], pv.to_expr(b)[:100], objtypes.equal_encoding(a, b)))
   ctx.extra['cases_in_coq'] = ctx.extra.get('cases_in_coq', 0) + len(se_cases) + len(ee_cases)
 
 
@@ -600,12 +604,13 @@ def correspond_observe(ctx):
         cases.append(lit)
         meta.append((t, c))
         ctx.count('o' + lit, nontrivial=True, kind='observe:error:%s' % ('no .error' if c.error is None else type(c.error).__module__.split('.')[0]))
-  bad = ctx.run_cases('observe', IMPORTS, 'fun c => obs_eqb (observe (fst c)) (ORaise (fst (snd c)) (Some (snd (snd c))))', cases, shard=300, timeout=TIMEOUT(ctx),
+  def _report(bad):
+    for k in bad[:6]:
+      t, c = meta[k]
+      ctx.broken('correspondence:model observe differs from column.get_cell_value',
+                 '%s cell %s reports %r' % (t, pv.to_expr(c)[:120], real_observe(t, c)))
+  defer(ctx, _report, 'observe', IMPORTS, 'fun c => obs_eqb (observe (fst c)) (ORaise (fst (snd c)) (Some (snd (snd c))))', cases, shard=300, timeout=TIMEOUT(ctx),
                       case_type='((value * option (list Z * option (list Z))) * (list Z * list Z))%type')
-  for k in bad[:6]:
-    t, c = meta[k]
-    ctx.broken('correspondence:model observe differs from column.get_cell_value',
-               '%s cell %s reports %r' % (t, pv.to_expr(c)[:120], real_observe(t, c)))
   # a value that is not an error is handed to the reader as a function of (column, raw object): checked by reading twice
   for t, raw, _rl in getattr(ctx, '_c07_stored', [])[:400]:
     if isinstance(raw, objtypes.RaisedException):
@@ -724,16 +729,19 @@ def correspond_engine_changes(ctx):
       cases.append(lit)
       meta.append((a, b, replaced, ('F%d' % i) in named))
       ctx.count('c' + lit, nontrivial=True, kind='engine-change:%s:%s' % ('replaced' if replaced else 'kept', 'stored' if ('F%d' % i) in named else 'quiet'))
-  bad = ctx.run_cases('changes', IMPORTS,
+  def _report(bad):
+    for k in bad[:6]:
+      a, b, replaced, stored = meta[k]
+      ctx.broken('correspondence:model recompute_cell/flush_cell differ from Engine._recompute_step / _changes_to_actions',
+                 'cell going from %s to %s: object replaced=%r, named in a stored action=%r' % (pv.to_expr(a), pv.to_expr(b), replaced, stored))
+  defer(ctx, _report, 'changes', IMPORTS,
                       'fun c => match c with (p, n, tbl, replaced, stored) => '
-                      'let chg := recompute_cell (oracles_of tbl) p n in '
+                      'match code_recompute_cell (oracles_of tbl) p n with Ok chg => '
                       'Bool.eqb (match chg with Some _ => true | None => false end) replaced && '
-                      'Bool.eqb (match flush_cell (oracles_of tbl) %d chg with Some _ => true | None => false end) stored end' % FUEL,
+                      'match code_flush_cell (oracles_of tbl) %d chg with Ok f => '
+                      'Bool.eqb (match f with Some _ => true | None => false end) stored | Raise _ => false end '
+                      '| Raise _ => false end end' % FUEL,
                       cases, shard=200, timeout=TIMEOUT(ctx), case_type='(value * value * tables * bool * bool)%type')
-  for k in bad[:6]:
-    a, b, replaced, stored = meta[k]
-    ctx.broken('correspondence:model recompute_cell/flush_cell differ from Engine._recompute_step / _changes_to_actions',
-               'cell going from %s to %s: object replaced=%r, named in a stored action=%r' % (pv.to_expr(a), pv.to_expr(b), replaced, stored))
   ctx.extra['cases_in_coq'] = ctx.extra.get('cases_in_coq', 0) + len(cases)
 
 
@@ -804,7 +812,7 @@ def correspond_formula_cells(ctx):
   if ctx.tier != 'thorough':
     texts = [c for c in stream if isinstance(c[1], str) and c[1] in FORMULA_TEXTS]      # always: the re-parsable texts x every type
     rest = [c for c in stream if not (isinstance(c[1], str) and c[1] in FORMULA_TEXTS)]
-    stream = texts + rng.sample(rest, min(len(rest), 200))
+    stream = rng.sample(texts, min(len(texts), 220)) + rng.sample(rest, min(len(rest), 90))
   cases, meta = [], []
   seen = set()
   for t, r in stream:
@@ -834,17 +842,18 @@ def correspond_formula_cells(ctx):
     cases.append(lit)
     meta.append((t, r, emitted))
     ctx.count('f' + lit, nontrivial=not pv.same(x, r) or not pv.same(s, x), kind='formula-cell:%s:%s' % (t.split(':')[0], 'emits' if emitted else 'quiet'))
-  bad = ctx.run_cases('formulacell', IMPORTS,
+  def _report(bad):
+    for k in bad[:6]:
+      t, r, emitted = meta[k]
+      ctx.broken('correspondence:model of convert/set/reload/flush differs from the implementation on a formula cell',
+                 'type %s, formula result %s: stored action after reload = %r' % (t, pv.to_expr(r)[:120], emitted))
+  defer(ctx, _report, 'formulacell', IMPORTS,
                       'fun c => match c with (r, tbl, T, mp, em) => let orc := oracles_of tbl in let x := convert orc T r in '
                       'match col_set orc T x with Ok s => match reload orc (marshal_of mp) (unmarshal_of mp) T %d (s, None) with '
                       '| Ok (w, _) => Bool.eqb (match flush_cell orc %d (recompute_cell orc w x) with Some _ => true | None => false end) em '
                       '| Raise _ => false end | Raise _ => false end end' % (FUEL, FUEL),
                       cases, shard=60 if ctx.tier == 'quick' else 120, timeout=TIMEOUT(ctx),
                       case_type='(value * tables * ctype * list (value * list Z) * bool)%type')
-  for k in bad[:6]:
-    t, r, emitted = meta[k]
-    ctx.broken('correspondence:model of convert/set/reload/flush differs from the implementation on a formula cell',
-               'type %s, formula result %s: stored action after reload = %r' % (t, pv.to_expr(r)[:120], emitted))
   ctx.extra['cases_in_coq'] = ctx.extra.get('cases_in_coq', 0) + len(cases)
 
 
@@ -878,8 +887,150 @@ def search_formula_cells(ctx):
                       {'cell': {'type': t, 'expr': pv.to_expr(r)}, 'kind': kind})
 
 
+# ---- the translated code (harness/rl2v.py -> coq/gen/Reload_gen.v) ---------------------------------------------------
+
+# sha1 of the AST of the glue the model was written from (untranslated; layout and comments do not matter)
+PINS = {
+  'main.py:table_data_from_db': '4d2708ce4f481da8', 'column.py:BaseColumn.set': '568dc30ccabb2a50',
+  'column.py:BaseReferenceColumn.set': 'b56b8aeb5109ce6a', 'column.py:PositionColumn.set': '981f1f760851052f',
+  'objtypes.py:RaisedException.__init__': '15b499bb0b602ab3', 'objtypes.py:is_int_short': 'f8690ebc19a65847',
+  'actions.py:decode_bulk_values': 'cb7eb2cd2f311918', 'engine.py:_recompute_step:if save_value': '2e81bcb035e05678',
+  'action_summary.py:_changes_to_actions:full_row_ids': '70600eb5435c54cb',
+}
+
+
+def regenerate(ctx):
+  import os
+  from harness import rl2v
+  core.setup_impl_path()
+  try:
+    text = rl2v.translate_all(core.GRIST)
+    got = rl2v.pin_hashes(core.GRIST)
+  except rl2v.Untranslatable as e:
+    raise core.TieBroken('the code C07 decides on left the translated subset: %s' % e)
+  core.write_if_changed(os.path.join(core.COQ, 'gen', 'Reload_gen.v'), text)
+  changed = sorted(k for k in PINS if got.get(k) != PINS[k])
+  if changed:
+    raise core.TieBroken('untranslated glue differs from the text the model was written from: %s' % ', '.join(changed))
+  ctx.extra['regenerated'] = {'file': 'coq/gen/Reload_gen.v', 'functions': [t[4] for t in rl2v.TARGETS] + ['gen_set_kind', 'gen_col_set'],
+                              'pinned_glue': sorted(PINS)}
+
+
+DECODE_ARGS = [
+  ['NameError'], ['ValueError', 'm', 'd', {'u': 5}], ['X', None, None, {'u': ['L', 1]}], ['X', 'm', 'd', 5], ['AttributeError'], [None],
+  [None, 'm'], ['X', None, 'd'], ['X', 'm', None, {}], ['X', 'm', 'd', {'v': 1}], ['X', 'm', 'd', {'u': None}], ['X', 'm', 'd', None],
+  ['X', 'm', 'd', {'u': ['D', 1.0, 'UTC']}], ['X', 'm', 'd', {'u': 5}, 'extra'], [5], [['L']], ['X', 7], ['X', ['L', 1]], [''], ['X', ''],
+  ['X', 'm', 'd', []], ['X', 'm', 'd', 'text'], [True, False], ['X', None, None, {'u': ['E', 'Y', 'n']}], [],
+]
+
+
+def correspond_translated(ctx):
+  """the translator itself, differentially: generated decode_args / safe_shift / _decode_db_value evaluated by vm_compute
+  against the running functions (the generated set / reload / equality functions are evaluated in the other streams)"""
+  import main
+  import objtypes
+  cases, meta = [], []
+
+  def exc_fields(exc):
+    ui = exc.user_input
+    err = None if exc.error is None else (type(exc.error).__name__, list(exc.error.args))
+    return exc._name, exc._message, exc.details, ui, err
+  for args in DECODE_ARGS:
+    b = pv.Builder()
+    b.collect(args)
+    collect_encoded(b, args)
+    try:
+      name, msg, det, ui, err = exc_fields(objtypes.RaisedException.decode_args(*copy.deepcopy(args)))
+      for v in (name, msg, det):
+        b.collect(v)
+      if ui is not objtypes.RaisedException.NO_INPUT:
+        b.collect(ui)
+      uil = 'NO_INPUT' if ui is objtypes.RaisedException.NO_INPUT else b.val(ui)
+      errl = 'PNone' if err is None else '(PTuple [%s; PList LPlain %s])' % (b.val(err[0]), b.vals(err[1]))
+      want = '(Ok (PTuple [%s; %s; %s; %s; %s]))' % (b.val(name), b.val(msg), b.val(det), uil, errl)
+    except Exception as ex:
+      want = '(Raise %s)' % pv.slit(type(ex).__name__)
+    cases.append('(inl (PTuple %s, %s, %s))' % (b.vals(args), b.tables(NEED), want))
+    meta.append(('decode_args', args))
+    ctx.count(('dargs', repr(args)), nontrivial=True, kind='translated:decode_args')
+  for lst in [[], [None], [1, 2], [None, 3], ['a'], [0], [False, None]]:
+    for dflt in (None, {}):
+      l2 = list(lst)
+      r = objtypes.safe_shift(l2, dflt)
+      b = pv.Builder()
+      cases.append('(inr (%s, %s, (%s, %s)))' % (b.val(lst), b.val(dflt), b.val(r), b.val(l2)))
+      meta.append(('safe_shift', (lst, dflt)))
+      ctx.count(('shift', repr(lst), repr(dflt)), nontrivial=bool(lst), kind='translated:safe_shift')
+  check = ('fun c => match c with '
+           '| inl (args, tbl, want) => res_eqb value_eqb (gen_decode_args (oracles_of tbl) (decode_f (oracles_of tbl) %d) args) want '
+           '| inr (l, d, (r, l2)) => match gen_safe_shift (oracles_of (Build_tables [] [] [] [] [] [] [] [] [] [] [] [] [] [] [] [] [] [])) l d '
+           'with Ok (r1, l1) => value_eqb r1 r && value_eqb l1 l2 | Raise _ => false end end' % FUEL)
+  def _report(bad):
+    for k in bad[:6]:
+      ctx.broken('translation:generated %s differs from the running function' % meta[k][0], repr(meta[k][1])[:200])
+  defer(ctx, _report, 'translated', IMPORTS, check, cases, shard=100, timeout=TIMEOUT(ctx),
+                      case_type='((value * tables * result value) + (value * value * (value * value)))%type')
+  # _decode_db_value on blobs and plain values
+  dcases, dmeta = [], []
+  for enc in ENCODED + ['text', 5]:
+    x = db_cell(enc) if not isinstance(enc, bytes) else marshal.dumps(enc, 2)
+    try:
+      d = main._decode_db_value(x)
+    except Exception:
+      continue
+    b = pv.Builder()
+    collect_encoded(b, enc)
+    b.collect(d)
+    pairs = [(marshal.loads(x), x)] if isinstance(x, bytes) else []
+    for y, _m in pairs:
+      if type(y) is not bytes:
+        b.collect(y)
+    dcases.append('(%s, %s, %s, %s)' % (short_bytes(b, x), b.tables(NEED), pairs_lit(b, pairs), b.val(d)))
+    dmeta.append(enc)
+    ctx.count(('ddb', repr(enc)), nontrivial=isinstance(x, bytes), kind='translated:_decode_db_value')
+  def _report(bad):
+    for k in bad[:6]:
+      ctx.broken('translation:generated _decode_db_value differs from the running function', repr(dmeta[k])[:200])
+  defer(ctx, _report, 'decodedb', IMPORTS,
+                      'fun c => match c with (x, tbl, mp, d) => res_eqb value_eqb (gen_decode_db_value (decode_f (oracles_of tbl) %d) '
+                      '(loads_of (unmarshal_of mp)) x) (Ok d) end' % FUEL, dcases, shard=100, timeout=TIMEOUT(ctx),
+                      case_type='(value * tables * list (value * list Z) * value)%type')
+  ctx.extra['translator_validation'] = {'decode_args': len(DECODE_ARGS), 'safe_shift': 14, '_decode_db_value': len(dcases),
+                                        'note': 'gen_col_set, code_reload, gen_strict_equal, gen_equal_encoding and the change detection '
+                                                'are evaluated on every case of the set / reload / comparison / engine-change streams'}
+
+
+def defer(ctx, report, *args, **kw):
+  """queue one ctx.run_cases call; run_deferred evaluates all of them side by side (one coqc start-up time instead of nine)"""
+  if not hasattr(ctx, '_c07_jobs'):
+    ctx._c07_jobs = []
+  ctx._c07_jobs.append((report, args, kw))
+
+
+def run_deferred(ctx):
+  import concurrent.futures
+  jobs, ctx._c07_jobs = getattr(ctx, '_c07_jobs', []), []
+  with concurrent.futures.ThreadPoolExecutor(max_workers=3) as ex:
+    futs = [(report, args[0], ex.submit(ctx.run_cases, *args, **kw)) for report, args, kw in jobs]
+    for report, name, fut in futs:
+      try:
+        bad = fut.result()
+      except core.TieBroken as e:
+        ctx.broken('correspondence:C07 cases %s' % name, str(e))
+        continue
+      report(bad)
+
+
 def correspond(ctx):
   core.setup_impl_path()
+  try:
+    correspond_all(ctx)
+  finally:
+    run_deferred(ctx)
+
+
+def correspond_all(ctx):
+  correspond_translated(ctx)
   correspond_engine_changes(ctx)
   correspond_formula_cells(ctx)
   ctx.log('engine change detection evaluated')
@@ -1174,7 +1325,7 @@ def search(ctx):
   from harness import gristenv as G
   from harness import histgen
   core.setup_impl_path()
-  n_hist, nb = ctx.n(24, 400), ctx.n(8, 14)
+  n_hist, nb = ctx.n(18, 400), ctx.n(8, 14)
   reported = collections.Counter()
   search_formula_cells(ctx)
   # regression corpus first: witnesses of repaired findings (they must stay quiet) and their variations
